@@ -54,3 +54,14 @@ ENTRY["monitor_sigs"] = ENTRY["monitor_sigs"] + _cr.MONITOR_SIGS
 ENTRY["trusted_base"] = ENTRY["trusted_base"] + _cr.TRUSTED_BASE
 ENTRY["assumptions"] = ENTRY["assumptions"] + _cr.ASSUMPTIONS
 ENTRY["level_text"] += _cr.LEVEL_TEXT
+
+# Fourth session: the file / ordering / mapping logic of eth2util/keystore (StoreKeys, LoadFilesUnordered / Recursively,
+# extractFileIndex, SequencedKeys, KeysharesToValidatorPubkey, ShareIdxForCluster): Model/Keystore.lean, theorems
+# Props/C12Keystore.lean, stream keystore. Its two findings (D-21, D-22) are repaired in /repo (fixes cefbe7e, edaf179).
+from vlib import snippet_C12keystore as _ks
+ENTRY["streams"] = ENTRY["streams"] + [_ks.STREAM]
+ENTRY["lean_props_extra"].append(_ks.EXTRA_LEAN)
+ENTRY["monitor_sigs"] = ENTRY["monitor_sigs"] + [m for m in _ks.MONITOR_SIGS if m not in ENTRY["monitor_sigs"]]
+ENTRY["trusted_base"] = ENTRY["trusted_base"] + _ks.TRUSTED_BASE
+ENTRY["assumptions"] = ENTRY["assumptions"] + _ks.ASSUMPTIONS
+ENTRY["level_text"] += _ks.LEVEL_TEXT
